@@ -12,6 +12,7 @@ import TwModel
 import TwSpec
 import TwProofs.Lemmas.Loops
 import TwProofs.Lemmas.EachSimple
+import TwProofs.Lemmas.TextEach
 
 namespace Tw.C03
 open Tw
@@ -228,6 +229,57 @@ theorem continue_skips_rest_of_pass_only (f : Nat) (c : Ctx) (t : Token) (var : 
     (hrest : EachPasses f c t var body n r.2 rest (i + 1) out) :
     EachPasses f c t var body n env (x :: rest) i (r.1.text ++ out) :=
   .pass env x rest i env1 r out hs hb hbrk hrest
+
+/-! ### from the source bytes -/
+
+/-- **C03 from the source bytes**: a template of text, `{{ name }}` blocks and
+    `@each(x in xs) body @end` loops (any spacing inside the parentheses; the body text and
+    `{{ name }}` blocks) renders, for every data map, to the text with — at each loop — the body
+    once per element of the array bound to `xs`, in order, `x` bound to the element and `loop` to
+    the metadata of its position (`passTexts`), and nothing for an empty array.  The prints after a
+    loop are filled from the outer environment: the loop variable does not leak.  Lexer
+    (`lex_each_header`, `lexRun_body`), parser (`parse_each_stmt`) and evaluator
+    (`each_of_text_and_variables'`) composed. -/
+theorem each_renders_once_per_element_from_source (custom : List ((VType × Bytes) × Nat)) (items : List XItem)
+    (hok : XItemsOK items) (data : List (Bytes × GoVal)) (env : Env) (henv : envFromMap data = .ok env)
+    (hb : xbound env (xspec items)) (hsize : xneed env (xspec items) ≤ evalFuel) :
+    evaluateStringPure custom (xitemsSrc items) data = .ok (xrender env (xspec items)) :=
+  xitems_render custom items hok data env henv hb hsize
+
+/-- what a loop contributes, unrolled: the pass for the first element, then the passes for the rest
+    at the next positions -/
+theorem passTexts_cons (env : Env) (var : Bytes) (ps : List Piece) (n : Nat) (x : Val) (r : List Val) (i : Nat) :
+    passTexts env var ps n (x :: r) i = fill (passEnv env var x i n) ps ++ passTexts env var ps n r (i + 1) := rfl
+
+/-- the number of passes is the number of elements: the loop neither skips nor repeats one -/
+theorem passTexts_of_constant_body (env : Env) (var : Bytes) (t : Bytes) (n : Nat) : ∀ (xs : List Val) (i : Nat),
+    (passTexts env var [.text t] n xs i).length = xs.length * t.length
+  | [], _ => by simp [passTexts]
+  | x :: r, i => by
+    have := passTexts_of_constant_body env var t n r (i + 1)
+    simp only [passTexts, fill, List.length_append, this, List.length_cons, Nat.succ_mul]
+    simp
+    omega
+
+section example_each
+private def exItems : List XItem := [.text [.plain (b "n: ")],
+  .each [] (b "v") (b " ") (b "  ") (b "xs") (b " ") [.print [] (b "v") (b " "), .text [.plain (b ",")]],
+  .text [.plain (b " by ")], .print [] (b "who") []]
+private def exData : List (Bytes × GoVal) := [(b "xs", .slice [.int 4, .int 5, .int 6]), (b "who", .str (b "me"))]
+private def exEnv : Env := [[(b "who", .str (b "me")), (b "xs", .arr [.int 4, .int 5, .int 6])]]
+
+example : xitemsSrc exItems = b "n: @each(v in  xs ){{v }},@end by {{who}}" := by decide
+example : XItemsOK exItems := by decide
+
+example : evaluateStringPure [] (b "n: @each(v in  xs ){{v }},@end by {{who}}") exData = .ok (b "n: 4,5,6, by me") := by
+  have hbound : xbound exEnv (xspec exItems) := by
+    refine ⟨⟨[.int 4, .int 5, .int 6], .INTEGER, rfl, by decide, by decide⟩, by decide, ⟨Or.inl rfl, trivial⟩, by decide, trivial⟩
+  have h := each_renders_once_per_element_from_source [] exItems (by decide) exData exEnv (by rfl) hbound (by decide)
+  have h1 : xitemsSrc exItems = b "n: @each(v in  xs ){{v }},@end by {{who}}" := by decide
+  have h2 : xrender exEnv (xspec exItems) = b "n: 4,5,6, by me" := by decide
+  rw [h1, h2] at h
+  exact h
+end example_each
 
 /-! ### end-to-end instances (kernel evaluation of the whole pipeline) -/
 
